@@ -19,6 +19,7 @@ DRIVERS = {
     'iteration': {'vm': 'iteration'},
     'for_loop': {'vm': 'iteration'},
     'switch_ops': {'vm': 'iteration'},
+    'if_then': {'vm': 'iteration'},
     'config_ops': {'vm': 'config_ops'},
     'waituntil': {'vm': 'waituntil'},
     'operators_total': {'vm': 'operators_total'},
